@@ -21,6 +21,7 @@ import (
 	"github.com/dgraph-io/badger/v4/fb"
 	"github.com/dgraph-io/badger/v4/options"
 	"github.com/dgraph-io/badger/v4/pb"
+	"github.com/dgraph-io/badger/v4/vhook"
 	"github.com/dgraph-io/badger/v4/y"
 	"github.com/dgraph-io/ristretto/v2/z"
 )
@@ -488,6 +489,9 @@ func (b *Builder) encrypt(data []byte) ([]byte, error) {
 	iv, err := y.GenerateIV()
 	if err != nil {
 		return data, y.Wrapf(err, "Error while generating IV in Builder.encrypt")
+	}
+	if vhook.On {
+		vhook.EventKV("enc.iv", iv, nil, b.DataKey().KeyId, 1)
 	}
 	needSz := len(data) + len(iv)
 	dst := b.alloc.Allocate(needSz)
